@@ -142,6 +142,11 @@ where
 
         let mut unique_encrypted_hybrid_reports = UniqueTagValidator::new(resharded_tags.len());
         unique_encrypted_hybrid_reports.check_duplicates(&resharded_tags)?;
+        #[cfg(feature = "ipa-verif")]
+        if crate::verif_obs::stop_after_dedup() {
+            crate::verif_obs::emit("query:dedup-passed", ctx.role() as u64, u64::from(u32::from(ctx.shard_id())), resharded_tags.len() as u64);
+            return Ok(Vec::new());
+        }
 
         let indistinguishable_reports: Vec<IndistinguishableHybridReport<BA8, BA3>> =
             decrypted_reports.into_iter().map(Into::into).collect();
